@@ -1,5 +1,5 @@
 """The per-property checks.  Each takes a Run and composes units."""
-import os, random, json
+import os, random, json, shutil
 from . import build, engine, rulesets, units, product
 
 CHECKS = {}
@@ -487,6 +487,8 @@ def c16(run):
     rng = random.Random(run.seed)
     q = run.tier == "quick"
     valid = _valid_specs(run, 6 if q else 30)
+    for o_ in ():
+        pass
     obs = []
     OPTS = [[], ["-Cf"], ["-CF"], ["-Ca"], ["-Ce"], ["-Cm"], ["-7"], ["-B"], ["-I"], ["-i"], ["-l"], ["-X"], ["-d"], ["-p"], ["-s"], ["-w"],
             ["-v"], ["-L"], ["-R"], ["-Cfe"], ["--bison-bridge", "-R"], ["-T"], ["--stdinit"], ["--nounistd"], ["-P", "zz"], ["--yylineno"]]
@@ -515,15 +517,21 @@ def c16(run):
         if rng.random() < 0.5: t = b"%%\n" + t
         jobs.append(dict(kind="random", name="random-%d" % n, text=t, args=rng.choice(OPTS), want=("scanner",), faults={}, compile_check=False))
     # (d) internal limits
+    import re as _re
+    fdef = open(os.path.join(build.REPO, "src", "flexdef.h")).read()
+    m = _re.search(r"#define\s+YY_TRAILING_MASK\s+(0x[0-9a-fA-F]+|\d+)", fdef)
+    max_rule = (int(m.group(1), 0) - 1) if m else 8191       # MAX_RULE: rule numbers share a word with the trailing-context flags
     for name, text, args in G.limit_specs():
-        jobs.append(dict(kind="limit", name=name, text=text, args=args, want=("scanner",), faults={}, compile_check=False, timeout=120))
-        jobs.append(dict(kind="limit", name=name + "-Ca", text=text, args=["-Ca"], want=("scanner",), faults={}, compile_check=False, timeout=120))
+        over = name.startswith("rules-") and int(name.split("-")[1]) + 1 > max_rule      # + the default rule
+        jobs.append(dict(kind="limit", name=name, text=text, args=args, want=("scanner",), faults={}, compile_check=False, timeout=120, overlimit=over))
+        jobs.append(dict(kind="limit", name=name + "-Ca", text=text, args=["-Ca"], want=("scanner",), faults={}, compile_check=False, timeout=120, overlimit=over))
 
     import concurrent.futures as cf
     def one(j):
         o, wd = G.run_flex(fd, j["text"], j["args"], want=j["want"], faults=j["faults"], timeout=j.get("timeout", 40),
                            stdout_scanner=j.get("stdout_scanner", False), compile_check=j.get("compile_check", True))
-        o.update(kind=j["kind"], name=j["name"], group=j["name"], env="", args=" ".join(j["args"]), faults=j["faults"], want=list(j["want"]))
+        o.update(kind=j["kind"], name=j["name"], group=j["name"], env="", args=" ".join(j["args"]), faults=j["faults"], want=list(j["want"]),
+                 overlimit=bool(j.get("overlimit")))
         return o
     with cf.ThreadPoolExecutor(units.NCPU) as ex:
         obs = list(ex.map(one, jobs))
@@ -591,3 +599,54 @@ def c18(run):
         run.violation("bootstrap", "regenerating flex's own scanner with the flex built from it does not reproduce it (rc=%d)" % p.returncode, {}, [])
     run.unit("bootstrap", identical=(p.returncode == 0))
     run.assumptions += ["environments are a finite list (allocator perturbation, arena count, environment size, cwd, sanitizer build, -t versus -o)"]
+
+
+@check("C20")
+def c20(run):
+    from . import usercode as U, tlc as T
+    import concurrent.futures as cf
+    fd = build.build_flex()
+    rng = random.Random(run.seed)
+    q = run.tier == "quick"
+    scn = os.path.join(run.work, "scn.json")
+    r = T.run("FlexUserCode", cfg="MC_UserCodeGen.cfg", env={"GEN": "1", "SCN": scn, "OBS": "/dev/null"}, workers=1, timeout=120)
+    if not r.ok or not os.path.exists(scn):
+        run.error("FlexUserCode scenario export failed: %s" % (r.error or r.out[-400:])); return
+    voc = json.load(open(scn))
+    toks = voc["tokens"]
+    # one specification holds the text in every region kind: singles exhaustively, pairs exhaustively (thorough) or sampled
+    texts = list(toks) + [a + " " + b for a in toks for b in toks]
+    if q:
+        pairs = texts[len(toks):]; rng.shuffle(pairs)
+        texts = list(toks) + pairs[:160]
+    jobs = [(t, False, ()) for t in texts] + [(t, True, ()) for t in toks[:8]] + [(t, False, ("-Cf",)) for t in toks[:6]]
+    with cf.ThreadPoolExecutor(units.NCPU) as ex:
+        res = list(ex.map(lambda j: U.observe(fd, j[0], noline=j[1], cfgargs=j[2]), jobs))
+    obs = []; wds = []
+    for o, wd in res:
+        obs += o; wds.append(wd)
+    for o in obs: run.note_case(dict(t=o["text"], r=o["region"], n=o["noline"]))
+    run.sample(dict(kind="scenario", text=obs[0]["text"], region=obs[0]["region"], source_line=obs[0]["srcline"], line_seen_by_compiler=obs[0]["seenline"],
+                    spec_excerpt=open(obs[0]["files"][0], encoding="latin-1").read().splitlines()[:6]))
+    path = os.path.join(run.work, "uc.obs.ndjson")
+    remaining = list(obs); rounds = 0
+    while remaining and rounds < 10:
+        rounds += 1
+        with open(path, "w") as f:
+            for o in remaining: f.write(json.dumps({k: v for k, v in o.items() if k not in ("text", "note", "files")}) + "\n")
+        r = T.run("FlexUserCode", cfg="MC_UserCode.cfg", env={"GEN": "0", "OBS": path, "SCN": "/dev/null"}, workers=1, timeout=600)
+        run.add_tlc(r)
+        if r.ok: break
+        if not r.violated:
+            run.error("FlexUserCode failed: %s" % (r.error or "timeout")[:500]); break
+        i = T.ints(r.last_state.get("i", "1"))[0] - 1
+        o = remaining[i]
+        run.violation("usercode:" + r.violated, "user code %r placed in region '%s' (%s): %s fails - flex rc=%s cc rc=%s, compiler saw %r at line %s (source line %s); %s"
+                      % (o["text"], o["region"], "noline" if o["noline"] else "with #line", r.violated, o["flexrc"], o["ccrc"],
+                         "".join(chr(c) for c in o["observed"] if c >= 0), o["seenline"], o["srcline"], o["note"][:200].replace("\n", " | ")),
+                      dict(text=o["text"], region=o["region"]), o["files"])
+        remaining = [x for x in remaining if x["text"] != o["text"]]
+    for wd in wds: shutil.rmtree(wd, ignore_errors=True)
+    run.unit("usercode", specifications=len(jobs), observations=len(obs), vocabulary=len(toks), scenario_space=voc["scenarios"])
+    run.assumptions += ["hostile text is placed inside C string literals and comments of each region (plus a[a[0]]-style code), so that any byte flex or m4 changes is visible to the running program",
+                        "token sequences of length <= 2 over the FlexUserCode vocabulary (pairs sampled in the quick tier, exhaustive in the thorough tier)"]
